@@ -481,6 +481,12 @@ func genC05CLI(t *rapid.T) c05CLICase {
 	c.Steps = append([]c05CLIStep{{Kind: "new"}, {Kind: "comment"}, {Kind: "comment"}}, rapid.SliceOfN(one, 2, 10).Draw(t, "steps")...)
 	// the shape of interest: times above the clock are stored locally, the clock files disappear, a write follows
 	c.Steps = append(c.Steps, c05CLIStep{Kind: "peeredit", Jump: rapid.IntRange(3, 400).Draw(t, "pjump")}, c05CLIStep{Kind: "pull"})
+	if rapid.IntRange(0, 2).Draw(t, "stockFetch") == 0 {
+		// the peer's bugs reach the local references through stock git (a script, a mirror job), then git-bug pulls
+		// the same commits: nothing to merge, but the times stored in them are now stored locally
+		c.Steps = append(c.Steps, c05CLIStep{Kind: "peeredit", Jump: rapid.IntRange(3, 400).Draw(t, "sjump")}, c05CLIStep{Kind: "gitfetchlocal"}, c05CLIStep{Kind: "pull"},
+			c05CLIStep{Kind: rapid.SampledFrom([]string{"new", "comment"}).Draw(t, "sWrite"), Bug: rapid.IntRange(0, 4).Draw(t, "sBug")})
+	}
 	if rapid.IntRange(0, 2).Draw(t, "packRefs") == 0 {
 		// what `git gc` does between two commands: every reference moves into .git/packed-refs
 		c.Steps = append(c.Steps, c05CLIStep{Kind: "packrefs"})
@@ -534,7 +540,7 @@ func runC05CLI(tb report.TB, rep *report.Reporter, c c05CLICase) {
 	}
 	ids := func(dir string) []string { return strings.Fields(RunCLI(dir, "bug", "-f", "id").Out) }
 	var kinds []string
-	lossAfterMerge, merged, badRef, packed := false, false, false, false
+	lossAfterMerge, merged, badRef, packed, stockFetched := false, false, false, false, false
 	for i, s := range c.Steps {
 		kinds = append(kinds, s.Kind)
 		switch s.Kind {
@@ -559,6 +565,12 @@ func runC05CLI(tb report.TB, rep *report.Reporter, c c05CLICase) {
 				RunCLI(peerDir, "bug", "new", "-t", "peer bug", "-m", "m", "--non-interactive")
 			}
 			RunCLI(peerDir, "push", "origin")
+			continue
+		case "gitfetchlocal":
+			if res := RunGit(host, "fetch", "-q", "origin", "refs/bugs/*:refs/bugs/*", "refs/identities/*:refs/identities/*"); res.Code != 0 {
+				continue // not a fast-forward for some reference: stock git refuses, nothing happened
+			}
+			stockFetched = true
 			continue
 		case "packrefs":
 			if res := RunGit(host, "pack-refs", "--all", "--prune"); res.Code != 0 {
@@ -670,7 +682,7 @@ func runC05CLI(tb report.TB, rep *report.Reporter, c c05CLICase) {
 			}
 		}
 	}
-	rep.Case("cli|"+strings.Join(kinds, ","), lossAfterMerge, []string{"cli", fmt.Sprintf("clock-loss-after-merge:%v", lossAfterMerge), fmt.Sprintf("unreadable-reference-among-the-bugs:%v", badRef), fmt.Sprintf("references-packed:%v", packed)}, c)
+	rep.Case("cli|"+strings.Join(kinds, ","), lossAfterMerge, []string{"cli", fmt.Sprintf("clock-loss-after-merge:%v", lossAfterMerge), fmt.Sprintf("unreadable-reference-among-the-bugs:%v", badRef), fmt.Sprintf("references-packed:%v", packed), fmt.Sprintf("local-references-moved-by-stock-git:%v", stockFetched)}, c)
 }
 
 func TestC05CLI(t *testing.T) {
